@@ -16,7 +16,9 @@ import OfxModel.Drv.IniText
 import OfxModel.Drv.CookieJar
 import OfxModel.Drv.CopyProto
 import OfxModel.Drv.OfxgetWire
+import OfxModel.Drv.OfxgetPersist
+import OfxModel.Drv.Witness
 
 namespace Ofx.Drv
-def handlers : List Handler := [SecId.handle, Ofx.Drv.Agg.handle, Ofx.Drv.Pipeline.handle, Ofx.Drv.Client.handle, Ofx.Drv.Compose.handle, Ofx.Drv.DateTime.handle, Ofx.Drv.Getattr.handle, Ofx.Drv.Header.handle, Ofx.Drv.Ofxget.handle, Ofx.Drv.Parser.handle, Ofx.Drv.Purity.handle, Ofx.Drv.Serialize.handle, Ofx.Drv.Types.handle, Ofx.Drv.DocValues.handle, Ofx.Drv.IniText.handle, Ofx.Drv.CookieJar.handle, Ofx.Drv.CopyProto.handle, Ofx.Drv.OfxgetWire.handle]
+def handlers : List Handler := [SecId.handle, Ofx.Drv.Agg.handle, Ofx.Drv.Pipeline.handle, Ofx.Drv.Client.handle, Ofx.Drv.Compose.handle, Ofx.Drv.DateTime.handle, Ofx.Drv.Getattr.handle, Ofx.Drv.Header.handle, Ofx.Drv.Ofxget.handle, Ofx.Drv.Parser.handle, Ofx.Drv.Purity.handle, Ofx.Drv.Serialize.handle, Ofx.Drv.Types.handle, Ofx.Drv.DocValues.handle, Ofx.Drv.IniText.handle, Ofx.Drv.CookieJar.handle, Ofx.Drv.CopyProto.handle, Ofx.Drv.OfxgetWire.handle, Ofx.Drv.OfxgetPersist.handle, Ofx.Drv.Witness.handle]
 end Ofx.Drv
